@@ -55,6 +55,7 @@ class Pair:
         self.trace, self.two, self.tol, self.domain = trace, two, tol, domain
         self.max_paths, self.doc = max_paths, doc
         self.inputs = [n for g in groups for n in g]
+        self.rng = False
 
 
 def _O(A):
@@ -80,12 +81,13 @@ def _pairs():
     add('to_angles_S', [Q], lambda A, q: A.Quaternion(q, order='S').to_angles(),
         lambda A, q: A.QuaternionArray(q, order='S').to_angles())
     add('to_DCM_S', [Q], lambda A, q: A.Quaternion(q, order='S').to_DCM(), lambda A, q: A.QuaternionArray(q, order='S').to_DCM())
-    add('from_rpy', [ANG], lambda A, a: _arr(A.Quaternion(rpy=a)), lambda A, a: _arr(A.QuaternionArray(rpy=a)), two=True,
-        domain='angles')
+    add('from_rpy', [ANG], lambda A, a: _arr(A.Quaternion(rpy=a)), lambda A, a: _arr(A.QuaternionArray(rpy=a)), domain='angles')
     add('from_angles', [ANG], lambda A, a: _arr(A.Quaternion(angles=a)), lambda A, a: _arr(A.QuaternionArray(angles=a)),
-        domain='angles')
-    for meth, kw, tr in (('shepperd', {}, True), ('chiaverini', {}, True), ('hughes', {}, True), ('sarabandi', {}, True),
-                         ('itzhack1', {'version': 1}, True), ('itzhack2', {'version': 2}, True), ('itzhack3', {'version': 3}, False)):
+        domain='angles', trace=False)
+    # (not traced: after the SO(3) gate and two normalisations the regenerated terms are too large for the twin tactics;
+    #  the separately written copies are the free functions chiaverini/hughes below, which are traced)
+    for meth, kw, tr in (('shepperd', {}, False), ('chiaverini', {}, False), ('hughes', {}, False), ('sarabandi', {}, False),
+                         ('itzhack1', {'version': 1}, False), ('itzhack2', {'version': 2}, False), ('itzhack3', {'version': 3}, False)):
         m = meth.rstrip('123')
         add(f'dcm_{meth}', [M], (lambda A, R, m=m, kw=kw: _arr(A.Quaternion(dcm=R, method=m, **kw))),
             (lambda A, R, m=m, kw=kw: _arr(A.QuaternionArray(DCM=R, method=m, **kw))), trace=tr, domain='dcm', tol=(4096, 0.0),
@@ -100,7 +102,7 @@ def _pairs():
     # ---- metrics
     for m in ('qdist', 'qeip', 'qcip', 'qad'):
         add(m, [P, Q], (lambda A, p, q, m=m: getattr(_Mx(A), m)(p, q)), (lambda A, p, q, m=m: getattr(_Mx(A), m)(p, q)),
-            domain='quat2', tol=(64, 1e-9), two=(m == 'qeip'))
+            domain='quat2', tol=(64, 1e-9), two=(m == 'qeip'), trace=(m != 'qad'))
     add('chordal', [M, M2], lambda A, R, S: _Mx(A).chordal(R, S), lambda A, R, S: _Mx(A).chordal(R, S), domain='dcm2')
     add('identity_deviation', [M, M2], lambda A, R, S: _Mx(A).identity_deviation(R, S), lambda A, R, S: _Mx(A).identity_deviation(R, S),
         domain='dcm2', trace=False)
@@ -109,23 +111,24 @@ def _pairs():
     # ---- Tilt and SAAM: vectorised copy vs estimate()
     for rep in ('quaternion', 'angles', 'rotmat'):
         add(f'tilt_{rep}', [AC, MG], (lambda A, a, m, rep=rep: A.filters.Tilt(acc=a, mag=m, representation=rep).Q),
-            (lambda A, a, m, rep=rep: A.filters.Tilt(acc=a, mag=m, representation=rep).Q), domain='am', two=(rep == 'angles'))
+            (lambda A, a, m, rep=rep: A.filters.Tilt(acc=a, mag=m, representation=rep).Q), domain='am', two=(rep == 'angles'),
+            trace=(rep != 'rotmat'))
     add('tilt_nomag', [AC], lambda A, a: A.filters.Tilt(acc=a).Q, lambda A, a: A.filters.Tilt(acc=a).Q, domain='a')
     add('saam', [AC, MG], lambda A, a, m: A.filters.SAAM(acc=a, mag=m).Q, lambda A, a, m: A.filters.SAAM(acc=a, mag=m).Q, domain='am',
         two=True)
     add('saam_rotmat', [AC, MG], lambda A, a, m: A.filters.SAAM(acc=a, mag=m, representation='rotmat').A,
-        lambda A, a, m: A.filters.SAAM(acc=a, mag=m, representation='rotmat').A, domain='am')
+        lambda A, a, m: A.filters.SAAM(acc=a, mag=m, representation='rotmat').A, domain='am', trace=False)
     # ---- loop-style estimators: batch = [estimate(row) for row]
     add('famc', [AC, MG], lambda A, a, m: A.filters.FAMC(acc=a, mag=m).Q, lambda A, a, m: A.filters.FAMC(acc=a, mag=m).Q, kind='shared',
         domain='am')
     add('fqa', [AC, MG], lambda A, a, m: A.filters.FQA(acc=a, mag=m).Q, lambda A, a, m: A.filters.FQA(acc=a, mag=m).Q, kind='shared',
-        domain='am')
+        domain='am', trace=False)
     for rep in ('rotmat', 'quaternion'):
         for frame in ('NED', 'ENU'):
             add(f'triad_{rep}_{frame}', [AC, MG],
                 (lambda A, a, m, rep=rep, frame=frame: A.filters.TRIAD(w1=a, w2=m, representation=rep, frame=frame).A),
                 (lambda A, a, m, rep=rep, frame=frame: A.filters.TRIAD(w1=a, w2=m, representation=rep, frame=frame).A),
-                kind='shared', domain='am', trace=(frame == 'NED'), max_paths=64)
+                kind='shared', domain='am', trace=False)
     add('quest', [AC, MG], lambda A, a, m: A.filters.QUEST(acc=a, mag=m).Q, lambda A, a, m: A.filters.QUEST(acc=a, mag=m).Q, kind='shared',
         domain='am', trace=False)
     add('davenport', [AC, MG], lambda A, a, m: A.filters.Davenport(acc=a, mag=m).Q, lambda A, a, m: A.filters.Davenport(acc=a, mag=m).Q,
@@ -133,6 +136,7 @@ def _pairs():
     for frame in ('NED', 'ENU'):
         add(f'oleq_{frame}', [AC, MG], (lambda A, a, m, frame=frame: A.filters.OLEQ(acc=a, mag=m, frame=frame).Q),
             (lambda A, a, m, frame=frame: A.filters.OLEQ(acc=a, mag=m, frame=frame).Q), kind='shared', domain='am', trace=False)
+        L[-1].rng = True
     for frame in ('NED', 'ENU'):
         add(f'aqua_{frame}', [AC, MG], (lambda A, a, m, frame=frame: A.filters.AQUA(acc=a, mag=m, frame=frame).Q),
             (lambda A, a, m, frame=frame: A.filters.AQUA(acc=a, mag=m, frame=frame).Q), kind='shared', domain='am', trace=False)
@@ -183,12 +187,12 @@ def targets():
 STAGES = [
     ['C07_tac.v'],
     ['C07_quat.v', 'C07_dcm.v', 'C07_metrics.v', 'C07_est.v',
-     ('C07_refuted_hughes.v', {'finding': 'hughes/generic-conjugate'}),
-     ('C07_refuted_metrics.v', {'finding': 'qdist/close-differs'}),
-     ('C07_refuted_gates.v', {'finding': 'dcm_shepperd/not-SO3-raises-vs-value'}),
-     ('C07_refuted_chiaverini.v', {'finding': 'chiaverini/half-turn-nan'})],
+     ('C07_refuted_gates.v', {'finding': 'from_rpy/out-of-range-raises-vs-value'}),
+     ('C07_refuted_chiaverini.v', {'finding': 'chiaverini/half-turn-nan'}),
+     ('C07_refuted_rpy2q.v', {'finding': 'rpy2q/generic-differs'})],
     ['C07.v'],
 ]
+COQ_TIMEOUT = 240
 
 
 # ------------------------------------------------------------------------------------------
@@ -223,17 +227,28 @@ def _groups_of(p, row):
     return out
 
 
-def impl_single(p, row):
+def _form(x, form):
+    """the same numbers as another operand type: int64 array, float32 array, nested Python list"""
+    if form == 'int':
+        return np.asarray(x).astype(np.int64)
+    if form == 'float32':
+        return np.asarray(x).astype(np.float32)
+    if form == 'list':
+        return np.asarray(x).tolist()
+    return x
+
+
+def impl_single(p, row, form='float64'):
     A = _ahrs()
-    with _fixed_rng():
-        return p.s(A, *_groups_of(p, row))
+    with (_fixed_rng() if p.rng else contextlib.nullcontext()):
+        return p.s(A, *[_form(g, form) for g in _groups_of(p, row)])
 
 
-def impl_batch(p, rows):
+def impl_batch(p, rows, form='float64'):
     A = _ahrs()
     per = [_groups_of(p, r) for r in rows]
-    stacked = [np.array([pr[k] for pr in per]) for k in range(len(p.groups))]
-    with _fixed_rng():
+    stacked = [_form(np.array([pr[k] for pr in per]), form) for k in range(len(p.groups))]
+    with (_fixed_rng() if p.rng else contextlib.nullcontext()):
         return p.b(A, *stacked)
 
 
@@ -326,6 +341,8 @@ def region_of(p, row):
         a = np.array(row[:3])
         if not np.linalg.norm(a) > 0 or (d == 'am' and not np.linalg.norm(row[3:]) > 0):
             return 'zero-row'
+        if abs(a[0]) + abs(a[1]) <= 1e-12 * np.linalg.norm(a):
+            return 'level'
         return 'generic'
     return 'generic'
 
@@ -437,23 +454,45 @@ def _cmp(p, bi, si):
     return 'differs'
 
 
+WHOLE = {'from_angles': 'array-constructor-missing', 'identity_deviation': 'batch-always-raises', 'angular_distance': 'batch-always-raises',
+         'oleq_NED': 'one-row-batch-raises', 'oleq_ENU': 'one-row-batch-raises'}
+
+
 def o_twin(inp):
     """X(rows).op()[i] versus X(rows[i]).op() for every row i"""
+    form = inp.get('form', 'float64')
+    if form != 'float64':
+        r = _twin(inp, 'float64')       # a defect already present with float64 operands keeps its float64 tag
+        if r is not None:
+            return r
+    return _twin(inp, form)
+
+
+def _twin(inp, form):
     from vlib.core import call_outcome
     p = BYNAME[inp['pair']]
     rows = inp['rows']
-    bo = call_outcome(impl_batch, p, rows)
+    sfx = '' if form == 'float64' else '@' + form
+    bo = call_outcome(impl_batch, p, rows, form)
     for i, r in enumerate(rows):
-        so = call_outcome(impl_single, p, r)
-        reg = region_of(p, r)
+        so = call_outcome(impl_single, p, r, form)
+        reg = region_of(p, r) + sfx
         if bo[0] == 'raise' or so[0] == 'raise':
             if bo[0] == so[0]:
                 continue            # both raise (any class: the message and class of a rejection are not part of the property)
-            if bo[0] == 'raise' and len(rows) > 1 and any(call_outcome(impl_single, p, r2)[0] == 'raise' for r2 in rows):
-                continue            # the batch may reject as a whole when one of its rows is rejected by the scalar path
+            if bo[0] == 'raise' and len(rows) > 1:
+                if any(call_outcome(impl_single, p, r2, form)[0] == 'raise' for r2 in rows):
+                    continue        # the batch may reject as a whole when one of its rows is rejected by the scalar path
+                # attribute the rejection to the row whose one-row batch is rejected
+                culprit = [r2 for r2 in rows if call_outcome(impl_batch, p, [r2], form)[0] == 'raise']
+                if culprit:
+                    reg = region_of(p, culprit[0]) + sfx
             which = 'batch' if bo[0] == 'raise' else 'single'
             exc = bo[1] if bo[0] == 'raise' else so[1]
-            return {'tag': f"{p.name}/{reg}-raises-vs-value", 'observed': f'{which} raises {exc}', 'expected': 'same outcome', 'note': f'row {i}'}
+            tag = f"{p.name}/{reg}-raises-vs-value"
+            if which == 'batch' and p.name in WHOLE and (len(rows) == 1 or not p.name.startswith('oleq')):
+                tag = f"{p.name}/{WHOLE[p.name]}"
+            return {'tag': tag, 'observed': f'{which} raises {exc}', 'expected': 'same outcome', 'note': f'row {i}'}
         bv = bo[1]
         try:
             bi = bv[i]
@@ -495,6 +534,31 @@ def o_options(inp):
     return None
 
 
+def _integer_batches(p):
+    """integer-valued rows of the pair's domain, as batches of 1, 3 and 4 rows"""
+    d = p.domain
+    if d == 'quat':
+        rows = [[1, 2, 3, 4], [0, 1, 0, 0], [1, 0, 0, 0], [-2, 1, 0, 3], [0, 0, 3, -4]]
+    elif d == 'quat2':
+        rows = [[1, 2, 3, 4, 4, 3, 2, 1], [0, 1, 0, 0, 1, 0, 0, 0], [1, 1, 1, 1, 1, 1, 1, -1], [2, 0, 0, 1, 0, 3, 4, 0], [1, 0, 0, 0, 0, 0, 0, 2]]
+    elif d == 'angles':
+        rows = [[1, 0, -1], [0, 0, 0], [3, -1, 2], [-2, 1, 1], [0, 1, 0]]
+    elif d == 'dcm':
+        rows = [[1, 0, 0, 0, 1, 0, 0, 0, 1], [0, -1, 0, 1, 0, 0, 0, 0, 1], [0, 0, 1, 1, 0, 0, 0, 1, 0], [1, 0, 0, 0, 0, -1, 0, 1, 0],
+                [-1, 0, 0, 0, -1, 0, 0, 0, 1]]
+    elif d == 'dcm2':
+        r = [[1, 0, 0, 0, 1, 0, 0, 0, 1], [0, -1, 0, 1, 0, 0, 0, 0, 1], [0, 0, 1, 1, 0, 0, 0, 1, 0], [1, 0, 0, 0, 0, -1, 0, 1, 0]]
+        rows = [r[i] + r[(i + 1) % 4] for i in range(4)] + [r[0] + r[0]]
+    elif d == 'am':
+        rows = [[1, 2, 9, 20, -3, 40], [0, 0, 10, 20, 0, 40], [3, -1, 2, 5, 5, 1], [-9, 1, 1, 2, 30, -7], [2, 2, 2, 1, 0, -1]]
+    elif d == 'a':
+        rows = [[1, 2, 9], [0, 0, 10], [3, -1, 2], [-9, 1, 1], [2, 2, 2]]
+    else:
+        return []
+    rows = [list(map(float, r)) for r in rows]
+    return [[rows[0]], rows[1:4], rows[0:4]]
+
+
 ORACLES = {'twin': o_twin, 'options': o_options}
 
 
@@ -513,8 +577,8 @@ def search(ctx, scale):
         regs = [r for r, _ in rows]
         rows = [list(map(float, r)) for _, r in rows]
         batches = [[r] for r in rows]                                          # N = 1: every row alone
-        batches += [[rows[i], rows[(i + 3) % len(rows)]] for i in range(0, len(rows), 2)]     # N = 2
-        batches += [[rows[(i + 5 * j) % len(rows)] for j in range(7)] for i in range(0, len(rows), 5)]   # N = 7
+        for N, step in ((2, 2), (3, 4), (4, 3), (5, 5), (7, 5)):                # N in {2,3,4,5,7}
+            batches += [[rows[(i + 5 * j) % len(rows)] for j in range(N)] for i in range(0, len(rows), step)]
         if p.domain == 'angles':
             batches += [[r] for _, r in _angle_rows_out(ctx.rng)]
         if p.domain == 'quat2':
@@ -528,6 +592,11 @@ def search(ctx, scale):
             key = (p.name, len(b), tuple(np.round(np.array(b).reshape(-1), 6)))
             trivial = all(region_of(p, r) in ('near-identity',) and abs(abs(r[0]) - 1) < 1e-15 for r in b) if p.domain == 'quat' else False
             ctx.check('twin', inp, _call(o_twin, inp), nontrivial_key=None if trivial else key)
+        # the same numbers as other operand types (exactly representable rows): int64 arrays and nested lists
+        for form in ('int', 'list'):
+            for b in _integer_batches(p):
+                inp = {'pair': p.name, 'rows': b, 'form': form}
+                ctx.check('twin', inp, _call(o_twin, inp), nontrivial_key=(p.name, form, len(b), tuple(np.array(b).reshape(-1))))
     am = _am_rows(ctx.rng, 6 * scale)
     for _, r in am:
         for kind, opts in (('FLAE-method', ('symbolic', 'eig', 'newton')), ('Tilt-representation', ('quaternion', 'angles', 'rotmat')),
